@@ -76,6 +76,7 @@ class Gen:
         self.stmts = 0     # statements emitted (lines consumed by one primary each)
         self.cont = 0      # continuation lines (a statement spread over two lines)
         self.rich = rich   # wider statement family (casts, chained assignment, empty loops, multi-line statements)
+        self.big = False   # functions filled up to the 25-line limit, five functions per file
 
     def pick(self, xs):
         return xs[self.r.randrange(len(xs))]
@@ -225,10 +226,24 @@ class Gen:
             lines.append("")
             self.stmts += 1
         body = []
-        for _ in range(r.randrange(1, 5)):
-            self.stmt(vars_ or ["g_x"], 1, body, 0, False)
-            if len(body) > 18:
-                break
+        if self.big:
+            # a function at the norm's size limit: the body is filled up to 25 lines (declarations and return included)
+            budget = 25 - (len(locs) + 1 if locs else 0) - 1
+            guard = 0
+            while len(body) < budget - 3 and guard < 60:
+                guard += 1
+                trial = []
+                save = (self.stmts, self.cont)
+                self.stmt(vars_ or ["g_x"], 1, trial, 0, False)
+                if len(body) + len(trial) <= budget:
+                    body += trial
+                else:
+                    self.stmts, self.cont = save
+        else:
+            for _ in range(r.randrange(1, 5)):
+                self.stmt(vars_ or ["g_x"], 1, body, 0, False)
+                if len(body) > 18:
+                    break
         lines += body
         if rtype == "void" and not star:
             if r.random() < 0.3:
@@ -297,7 +312,7 @@ class Gen:
         if self.rich and r.random() < 0.4:
             self.comment_block(out)
             out.append("")
-        nf = r.randrange(1, 5)
+        nf = 5 if self.big else r.randrange(1, 5)
         names = r.sample(FUNCS, nf)
         heads = [self.head() for _ in names]
         col = max((len(a + b) // 4 + 1) * 4 for a, b in heads)
@@ -372,6 +387,7 @@ class Gen:
 
 def gen_conforming(rng, kind=None):
     g = Gen(rng, rich=rng.random() < 0.5)
+    g.big = rng.random() < 0.15
     kind = kind or ("c" if rng.random() < 0.7 else "h")
     base = g.pick(["main", "ft_utils", "list", "parse", "a", "ft_split_2"])
     name = f"{base}.{kind}"
